@@ -511,7 +511,7 @@ class Driver(object):
             req = a[1]
             k.trace.append(('req', req, 'reread', -1, -1))
             try:
-                self.options.configfile = self._config_file()
+                self.options.configfile = self._config_file(edit=len(a) > 2 and bool(a[2]))
                 self.rpc.reloadConfig()
                 k.trace.append(('ans', req, 0))
             except Exception as e:
@@ -685,7 +685,7 @@ class Driver(object):
         else:
             finish(res)
 
-    def _config_file(self):
+    def _config_file(self, edit=False):
         import tempfile
         if getattr(self, '_cfgdir', None) is None:
             os.makedirs('/verif/_work', exist_ok=True)
@@ -697,7 +697,7 @@ class Driver(object):
             L += ['[program:p%d]' % i, 'command=%s' % CMD[c['cmd']], 'priority=%d' % c['priority'],
                   'autostart=%s' % ('true' if c['autostart'] else 'false'), 'autorestart=%s' % AR[c['autorestart']],
                   'startsecs=%d' % c['startsecs'], 'startretries=%d' % c['startretries'],
-                  'stopwaitsecs=%d' % c['stopwaitsecs'], '']
+                  'stopwaitsecs=%d' % (c['stopwaitsecs'] + (1 if edit else 0)), '']      # edit: every program differs
         for g, gc in enumerate(self.script['groups']):
             L += ['[group:g%d]' % g, 'programs=%s' % ','.join('p%d' % i for i in gc['procs']), 'priority=%d' % gc['priority'], '']
         path = os.path.join(d, 'supervisord.conf')
